@@ -14,10 +14,13 @@ HARNESSES = {
     'K6': {'threads': [[('close', ())]], 'loop': 2, 'connect': {'ping_rate': 5}},
     'K7': {'threads': [[('close', ())]], 'loop': 2, 'steps': [SRV_PING]},
     'K8': {'threads': [[('close', ())], [('send_text', 'one'), ('send_text', 'two')]]},
+    'K10': {'pre': [('close', ())], 'threads': [[('send_text', 'late')], [('send_binary', b'\x09')]], 'loop': 2,
+            'steps': [SRV_CLOSE, W.Eof()]},
+    'K11': {'pre': [('close', ())], 'threads': [[('send_text', 'late'), ('close', (3003, 'again'))]], 'loop': 2, 'steps': [SFrame(TEXT, b'x').encode() + SRV_CLOSE, W.Eof()]},
     'K9': {'threads': [[('send_text', 'pre'), ('close', (1001, 'x'))], [('send_binary', b'\xaa'), ('close', ())]]},
 }
-BOUNDS = {'quick': {'K1': 2, 'K2': 2, 'K3': 1, 'K4': 1, 'K5': 1, 'K6': 1, 'K7': 1, 'K8': 1, 'K9': 1},
-          'thorough': {'K1': 3, 'K2': 3, 'K3': 2, 'K4': 2, 'K5': 2, 'K6': 2, 'K7': 2, 'K8': 2, 'K9': 2}}
+BOUNDS = {'quick': {'K1': 2, 'K2': 2, 'K3': 1, 'K4': 1, 'K5': 1, 'K6': 1, 'K7': 1, 'K8': 1, 'K9': 1, 'K10': 1, 'K11': 1},
+          'thorough': {'K1': 3, 'K2': 3, 'K3': 2, 'K4': 2, 'K5': 2, 'K6': 2, 'K7': 2, 'K8': 2, 'K9': 2, 'K10': 2, 'K11': 2}}
 PARTS = 16
 
 
